@@ -99,6 +99,12 @@ def run_case(case):
         # implementation; keep the huge-dynamic-range shape of the input but bring it into float32's squared range
         x = x * (1e15 / core.maxabs(x))
         pre_label = 'rescaled_below_f32_square_overflow'
+    elif is_scat and 0 < core.maxabs(x) < 1e-15:
+        # likewise the squares of coefficients below ~1e-19 leave float32's normal range (1.2e-38) in any
+        # implementation of sqrt(re^2 + im^2 + b^2): an all-tiny image is brought up to 1e-15 (thorough run, seed 4:
+        # a grating sampled at its zero crossings, 6e-23)
+        x = x * (1e-15 / core.maxabs(x))
+        pre_label = 'rescaled_above_f32_square_underflow'
     else:
         pre_label = None
     x32 = x.astype(np.float32)
